@@ -222,6 +222,12 @@ func cmdC07(args []string) {
 			add(c07Case{Dec: "idlparse", In: in, Origin: "text-soup"})
 		}
 	}
+	// texts one token away from a valid signature (Signature.tla's near-miss set): the parser must
+	// refuse or accept them without crashing, alone and as the signature of a dynamic value on the wire
+	for _, x := range vf.X {
+		add(c07Case{Dec: "sigparse", In: []byte(x), Origin: "sig-nearmiss"})
+		add(c07Case{Dec: "value", In: cat(le32(len(x)), []byte(x)), Origin: "sigtext-nearmiss"})
+	}
 	for _, n := range vf.N {
 		if !thorough && n.N > 64 {
 			if n.N != 1000 {
